@@ -14,6 +14,14 @@ from .pipeline import Flattener
 class Specialiser(Flattener):
     def live(self, fn, env):
         out = []
+        # locals that are assigned after their declaration must not be constant-folded
+        self._assigned = set()
+        for n in cir.walk(fn):
+            if (n.get("k") == "BinaryOperator" and n.get("op") == "=") or n.get("k") == "CompoundAssignOperator" or \
+                    (n.get("k") == "UnaryOperator" and n.get("op") in ("++", "--")):
+                t = cir.strip(cir.kids(n)[0])
+                if t is not None and t.get("k") == "DeclRefExpr":
+                    self._assigned.add((t.get("ref") or {}).get("n"))
         self._live(cir.body(fn), dict(env), out)
         return out
 
@@ -93,7 +101,7 @@ class Specialiser(Flattener):
                 if d is not None and d.get("k") == "VarDecl" and d.get("init"):
                     init = [c for c in cir.kids(d) if c is not None]
                     v = self.ceval(init[-1], env)
-                    if v is not None:
+                    if v is not None and d.get("n") not in getattr(self, "_assigned", ()):
                         env[d.get("n")] = v
             out.append(("expr", st))
             return
